@@ -58,6 +58,39 @@ theorem arith_expr_sound (cap : Nat) (hc : 2 ≤ cap) (tys : Nat → Ivs) (hty :
     refine ⟨C10.least_sound cap hc _ _ ga gb _ _ ma mb ra rb, C10.pmImage2_good cap hc _ _ _ _, ?_⟩
     unfold InRange at *; simp only [eval]; omega
 
+/-- column types / cells of a row as families; beyond the row's width (columns the real code rejects) both are padded with `0` -/
+def tysOf (T : List Ivs) : Nat → Ivs := fun i => if i < T.length then T.getD i [] else [(0, 0)]
+def envOf (row : List Int) : Nat → Int := fun i => row.getD i 0
+
+/-- **WHERE, then SELECT** (one `Map` node: C10 composed with C06): for every row type, every predicate of the C10 fragment and
+every arithmetic expression tree, a row that satisfies the predicate evaluates the expression inside the range propagated from
+the *narrowed* column types. -/
+theorem where_then_project_sound (cap : Nat) (hc : 2 ≤ cap) (T : List Ivs) (hT : C10.RowType cap T) (row : List Int)
+    (hrow : C10.RowIn row T) (hr : ∀ x ∈ row, C10.InRange x) (p : Pred) (hok : C10.PredOk T.length p) (hev : evalPred row p = true)
+    (e : AE) (he : LitsInRange e) : Mem (eval (envOf row) e) (image cap (tysOf (filterT cap T p)) e) := by
+  have w := C10.filter_wf cap hc p T hT
+  have h1 := C10.filter_sound cap hc p T hT row hrow hr hok hev
+  refine (arith_expr_sound cap hc (tysOf _) ?_ (envOf row) ?_ ?_ e he).1
+  · intro i; unfold tysOf; split
+    · exact C10.getD_good cap hc _ w.1 i
+    · exact good_single cap hc (0, 0) (by decide)
+  · intro i; unfold tysOf envOf; split
+    · rename_i hi; exact h1.2 i hi
+    · rename_i hi
+      have hl : row.length ≤ i := by rw [h1.1]; omega
+      rw [C10.getD_ge row i 0 hl]; exact ⟨(0, 0), by simp, by simp⟩
+  · intro i; unfold envOf
+    by_cases hi : i < row.length
+    · rw [C10.getD_lt row i 0 hi]
+      have := hr _ (List.getElem_mem hi)
+      unfold C10.InRange at this; unfold InRange; exact this
+    · rw [C10.getD_ge row i 0 (by omega)]; unfold InRange i64Min i64Max; omega
+
+/-- non-vacuity: `WHERE c0 >= 3`, `SELECT c0 + c1` on `c0 ∈ [0, 10]`, `c1 ∈ [2, 4]` at the row `(4, 4)`: the range is `[5, 14]`, not `[2, 14]` -/
+example :
+    image 128 (tysOf (filterT 128 [[(0, 10)], [(2, 4)]] (.gt (.col 0) (.lit 3)))) (.plus (.col 0) (.col 1)) = [(5, 14)] ∧
+      eval (envOf [4, 4]) (.plus (.col 0) (.col 1)) = 8 ∧ evalPred [4, 4] (.gt (.col 0) (.lit 3)) = true := by decide
+
 /-- non-vacuity: `(c0 + c0) * c1 - 3` with `c0 ∈ [1, 2] ∪ [5, 5]`, `c1 ∈ [-1, 4]` at the row `(5, -1)` -/
 example :
     let e : AE := .minus (.mul (.plus (.col 0) (.col 0)) (.col 1)) (.lit 3)
